@@ -296,9 +296,9 @@ PROPERTY = {
                     'concrete (one representative wrapper per method with shared, frozen and plain components).',
         not_decided=['"never receives a gradient" beyond what follows from requires_grad = False, the frozen masks not being parameters and '
                      'PITFrozenFeaturesMasker.theta not reading its tensor (autograd itself is trusted)',
-                     'models with other component mixes than the representative wrappers (structure is not quantified)'],
+                     'models with other component mixes than the representative wrappers and the enumerated whole models of contracts/whole_pit.py / whole_mps.py (structure is not quantified)'],
         trusted=['nn.Module parameter/buffer/sub-module registration and named_parameters() order/dedup as specified in pyvc/torchlib.py',
-                 'assumed contract on convert(): returns the seed module and the two leaf-module lists (torch.fx passes are not verified)'],
+                 'assumed contract on convert() in the call-sequence harnesses (returns the seed module and the two leaf-module lists); the whole-model harnesses run the real convert()'],
         assumptions=[],
     ),
 }
